@@ -628,6 +628,11 @@ class Array:
         raise HarnessError("unsupported rpow")
 
     def _cmp(self, other, op):
+        if OPS.name == "R" and isinstance(other, (float, _np.floating)) and other in (math.inf, -math.inf) and self.dt.kind != "b":
+            # every value of the real sort is finite
+            neg = other < 0
+            val = {"gt": neg, "ge": neg, "lt": not neg, "le": not neg, "eq": False, "ne": True}[op]
+            return Array(_np.full(self.shape, val, dtype=builtins.bool), bool)
         o = _coerce(other, self.dt)
         if o is NotImplemented:
             return NotImplemented
